@@ -226,7 +226,7 @@ func (l *bLayout) block(out *[]string, col int, items []*bItem) {
 }
 
 func bRender(funcs [][]*bItem, l *bLayout) string {
-	out := []string{"package main", "", "import frt", "", }
+	out := []string{"package main", "", "import frt", ""}
 	for i, f := range funcs {
 		l.between(&out)
 		l.emit(&out, 0, fmt.Sprintf("let f%d (u:U) (s:string) =", i))
